@@ -30,8 +30,8 @@ TReset == /\ Ev("reset") /\ wq = <<>>
 
 TOp == /\ Ev("op") /\ wq = <<>>
        /\ LET o == Trace[l].o
-              r == Apply(st, o)
-              round == IF o.op = "Finalise" THEN nfin + 1 ELSE nfin
+              r == CApply(st, o)
+              round == IF IsFin(o) THEN nfin + 1 ELSE nfin
           IN /\ OpOK(st, o)
              /\ st' = r.s /\ nfin' = round
              /\ wq' \in {OpWritesP("pinned", st, o, r, round), OpWritesP("required", st, o, r, round)}
